@@ -122,13 +122,44 @@ class Abort(Exception):
     pass
 
 
-def run_prog(objs, prog):
-    """-> dict(ev=[(op, obs)], raised=None | dict(...)).  op: ('new', k, (o, axis)) | ('next', k) | ('index', (o, axis), sel)
+def bound(prog, descs):
+    """upper bound on the number of operations a program records when the statement holds (the control flow of a
+    program depends on nothing but the observations).  A run that records more has gone wrong before; it is cut there
+    (a shared position can make a loop endless) and judged on what was recorded."""
+    total = 0
+    for node in prog:
+        kind = node[0]
+        if kind in ("iter", "gen", "index", "len"):
+            total += 1
+        elif kind == "next":
+            total += 2
+        elif kind == "list":
+            total += axis_len(descs[node[2][0]], node[2][1]) + 2
+        elif kind == "for":
+            n = axis_len(descs[node[2][0]], node[2][1])
+            rounds = n if node[3] is None else min(n, node[3])
+            total += 2 + rounds * (1 + bound(node[4], descs))
+        elif kind == "zip":
+            m = len(node[2])
+            n = min(axis_len(descs[s_[0]], s_[1]) for s_ in node[3])
+            rounds = n if node[4] is None else min(n, node[4])
+            total += m + 1 + rounds * (m + bound(node[5], descs))
+    return total
+
+
+def run_prog(objs, prog, cap=10 ** 9):
+    """-> dict(ev=[(op, obs)], raised=None | dict(...), runaway=bool).  op: ('new', k, (o, axis)) | ('next', k) | ('index', (o, axis), sel)
     | ('len', (o, axis)); obs: ('none',) | ('item', obj) | ('stop',) | ('err',) | ('num', n)"""
-    ev = []
+    class Ev(list):
+        def append(self, e):
+            if len(self) >= cap:
+                raise Abort()
+            list.append(self, e)
+
+    ev = Ev()
     cur = {}
     src_of = {}
-    state = dict(pending=None, raised=None)
+    state = dict(pending=None, raised=None, runaway=False)
 
     def S(src):
         return getattr(objs[src[0]], src[1])
@@ -252,15 +283,17 @@ def run_prog(objs, prog):
     try:
         for node in prog:
             ex(node)
+    except Abort:
+        state["runaway"] = True
     except base.REJECT as e:
-        ev.append((state["pending"], ("err",)))
+        list.append(ev, (state["pending"], ("err",)))
         state["raised"] = dict(type=type(e).__name__, msg=str(e)[:200], site=base.failing_site(e), rejecting=True)
     except Exception as e:      # noqa: BLE001  (AttributeError & co. are never a documented outcome)
         import traceback
-        ev.append((state["pending"], ("err",)))
+        list.append(ev, (state["pending"], ("err",)))
         state["raised"] = dict(type=type(e).__name__, msg=str(e)[:200], site=base.failing_site(e), rejecting=False,
                                tb=traceback.format_exc()[-1200:])
-    return dict(ev=ev, raised=state["raised"])
+    return dict(ev=list(ev), raised=state["raised"], runaway=state["runaway"])
 
 
 # ----------------------------------------------------------------------------------------
@@ -498,12 +531,12 @@ def evaluate(ctx, case, idx):
     spec, prog = case["spec"], case["prog"]
     objs, descs = make_objects(spec)
     before = [base.enc_val(o) for o in objs]
-    res = run_prog(objs, prog)
+    res = run_prog(objs, prog, cap=bound(prog, descs) + 5)
     ev = res["ev"]
     # the model's objects: from the constructor arguments, on fresh objects (not the ones the program used)
     fresh, _ = make_objects(spec)
     obj_terms = [base.enc_val(o) for o in fresh]
-    info = dict(idx=idx, case=case, raised=res["raised"], ev=ev, names=names_of(spec), descs=descs, problems=[])
+    info = dict(idx=idx, case=case, raised=res["raised"], runaway=res["runaway"], ev=ev, names=names_of(spec), descs=descs, problems=[])
     cache = {}
     first_seen = {}
     for j, (op, ob) in enumerate(ev):
@@ -627,7 +660,14 @@ def judge(ctx, info, c):
         if c:
             ctx.disagree(SHARD, idx, dict(code=c))
         return
-    if c is None or c == 0:
+    if c is None:
+        return
+    if info["runaway"]:
+        ctx.bump("cursors:program-did-not-end-within-its-bound")
+        if c % 16 & 2 == 0:
+            ctx.obligation("harness:c17-cursors-bound(case %s)" % info["idx"], False,
+                           "the program recorded more operations than its bound although every observation satisfies the statement")
+    if c == 0:
         return
     flags, first = c % 16, c // 16
     if flags & 4 and not (flags & 2):
